@@ -38,3 +38,12 @@ package fallback
 //@   let tc := asref(result, *fallback).config
 //@   ensures [C10.build.own_config+C16.fallback.build_own_listener] result != nil && typeis(result, *fallback) && tc != nil && tc != c && fresh(tc) && tc.fn == c.fn && tc.onFallbackExecuted == c.onFallbackExecuted && tc.BaseFailurePolicy == c.BaseFailurePolicy
 //@   modifies nothing
+
+// One executor per execution: fresh, pointing back at itself (the template dispatches PreExecute / PostExecute through that
+// pointer) and at this policy.
+//@ func (*fallback).ToExecutor
+//@   builder
+//@   requires fb != nil && fb.config != nil
+//@   let x := asref(result, *executor)
+//@   ensures [C01.toexecutor.fresh_self_referential+C10.toexecutor] typeis(result, *executor) && fresh(x) && x.fallback == fb && x.BaseExecutor != nil && fresh(x.BaseExecutor) && typeis(x.Executor, *executor) && asref(x.Executor, *executor) == x && x.BaseExecutor.BaseFailurePolicy == fb.BaseFailurePolicy
+//@   modifies nothing
